@@ -66,7 +66,7 @@ func neighbours(s *big.Int) []*big.Int {
 
 func main() {
 	run := report.New("C11", "exploration")
-	run.Rule("(A) static: a configured CRL of issuer X lists serials of width 1..20; probes = the same serials under other issuers (different DN, swapped RDN order, name with '_1' suffix, prefix/suffix names) and numeric/byte/decimal neighbours of every listed serial under X; (A2) an indirect CRL whose entries name another certificate issuer; (A3) lists forged by a client certificate of the CA (client extensions {bc+ku, no basicConstraints, no keyUsage, neither} x AKI {absent, client's, CA's key id} x issuer name {CA, client}) served at a CDP shared with other certificates of the CA, which must stay accepted; (A4) a configured list replaced by its successor while the validator is down: serials only the superseded list named are accepted once Provision has returned; (B) histories of length <=3 (quick) / <=4 (thorough) over {rejected load: bad signature | parse error after k entries | unhandled critical extension, accepted load A, accepted load B (removes and adds entries), restart} on both backends, after every event every serial ever published is probed; oracle: a probe not in the last accepted list (under its own issuer) must be accepted; non-trivial = case in which a listed control probe was rejected (the CRL really is in force) or a rejected document's serial was probed; distinct = case descriptor")
+	run.Rule("(A) static: a configured CRL of issuer X lists serials of width 1..20; probes = the same serials under other issuers (different DN, swapped RDN order, name with '_1' suffix, prefix/suffix names) and numeric/byte/decimal neighbours of every listed serial under X; (A2) an indirect CRL whose entries name another certificate issuer; (A3) lists forged by a client certificate of the CA (client extensions {bc+ku, no basicConstraints, no keyUsage, neither} x AKI {absent, client's, CA's key id} x issuer name {CA, client}) served at a CDP shared with other certificates of the CA, which must stay accepted; (A4) a configured list replaced by its successor while the validator is down: serials only the superseded list named are accepted once Provision has returned; (A5) lists naming an issuing CA whose keyUsage lacks cRLSign, signed with a foreign key or its own; (B) histories of length <=3 (quick) / <=4 (thorough) over {rejected load: bad signature | parse error after k entries | unhandled critical extension, accepted load A, accepted load B (removes and adds entries), restart} on both backends, after every event every serial ever published is probed; oracle: a probe not in the last accepted list (under its own issuer) must be accepted; non-trivial = case in which a listed control probe was rejected (the CRL really is in force) or a rejected document's serial was probed; distinct = case descriptor")
 	run.Assume("lenient CDP mode, healthy origin, signature mode verify", "names differing only in ASN.1 string type or case are the same name under RFC 5280 and are not used as 'other issuer'")
 	scratch, _ := report.Scratch("C11")
 	sut.QuietStderr(filepath.Join(scratch, "stderr.log"))
@@ -370,6 +370,64 @@ func main() {
 				run.NonTrivial(desc)
 			}
 		}
+	}
+
+	// ------------------------------------------------------------------ (A5) CA that may not sign CRLs
+	// The issuing CA's keyUsage lacks cRLSign, so no list under its name can be verified by it. A list
+	// naming it (AKI = its key identifier or absent), signed with a foreign key or even with its own
+	// key, must not revoke its certificates.
+	for _, backend := range []string{"memory", "disk"} {
+		if !mine() {
+			continue
+		}
+		noSign := w.Root.Issue(pki.CertOpts{CN: "C11 issuing CA without cRLSign " + backend, IsCA: true, KeyUsage: x509.KeyUsageCertSign | x509.KeyUsageDigitalSignature})
+		foreign := pki.NewRoot(pki.CertOpts{CN: "C11 foreign key"})
+		wd := filepath.Join(scratch, "wd-nosign-"+backend)
+		_ = os.MkdirAll(wd, 0755)
+		chk, err := l2.Start(l2.Opts{WorkDir: wd, Storage: backend, SigMode: "verify", Fetch: "actively"})
+		if err != nil {
+			run.Violation("nosign.provision-failed", err.Error(), nil)
+			continue
+		}
+		n := 0
+		for _, signer := range []string{"foreign-key", "own-key"} {
+			for _, aki := range []string{"keyid", "absent"} {
+				n++
+				path := fmt.Sprintf("/nosign-%s-%d.crl", backend, n)
+				url := w.CRL.URL(path)
+				var es []crlgen.Entry
+				for i := 0; i < 3; i++ {
+					es = append(es, crlgen.Entry{Serial: gen.SerialOfWidth(rng, 9, false), Date: gen.BaseTime})
+				}
+				sp := gen.SpecFor(noSign, es)
+				if aki == "absent" {
+					sp.Exts = [][]byte{crlgen.CRLNumberExt(big.NewInt(2))}
+				}
+				key := foreign.Key
+				if signer == "own-key" {
+					key = noSign.Key
+				}
+				sp.Alg = crlgen.AlgFor(key)
+				w.CRL.Set(path, origin.Good(sp.Build(key).DER))
+				desc := fmt.Sprintf("ca-without-crlsign backend=%s list-signed-with=%s aki=%s", backend, signer, aki)
+				bad := false
+				for _, e := range es {
+					leaf := noSign.Leaf(e.Serial, []string{url}, nil)
+					rev, err := chk.Ask([]*x509.Certificate{leaf, noSign.Cert, w.Root.Cert})
+					run.Eval(1)
+					if rev || err != nil {
+						bad = true
+						run.Violation("ca-without-crlsign.list-revokes."+signer+".aki-"+aki, fmt.Sprintf("%s: serial %s is reported revoked (err=%v) by a list nobody entitled has signed", desc, e.Serial, err), &report.Replay{Case: desc})
+						break
+					}
+				}
+				if !bad {
+					run.NonTrivial(desc)
+				}
+			}
+		}
+		chk.Stop()
+		_ = os.RemoveAll(wd)
 	}
 
 	// ------------------------------------------------------------------ (B) histories
